@@ -842,8 +842,9 @@ fn case_json(rules: &[&Rule], gh: usize, p: &Page) -> Value {
     json!({"rules": rules.iter().map(|r| r.text.clone()).collect::<Vec<_>>(), "generichide_rule": GH_RULES[gh], "gh": gh, "url": p.url})
 }
 
-fn check_list(rules: &[&Rule], effs_by_page: &[Vec<Eff>], pages: &[Page], ghs: &[usize], res: &[Resource], l: &mut Local, sample: Option<(usize, usize)>) {
+fn check_list(rules: &[&Rule], effs_by_page: &[Vec<Eff>], pages: &[Page], ghs: &[usize], res: &[Resource], l: &mut Local, sample: Option<usize>) {
     let size_base: u64 = rules.len() as u64 * 100_000 + rules.iter().map(|r| r.text.len() as u64).sum::<u64>() * 100;
+    let mut sampled = false;
     for &gh in ghs {
         let eng = match catch(|| build_engine(rules, gh, res)) {
             Ok(e) => e,
@@ -889,7 +890,8 @@ fn check_list(rules: &[&Rule], effs_by_page: &[Vec<Eff>], pages: &[Page], ghs: &
                 (exp_full, got_full)
             };
             l.compared += 1;
-            if effs.iter().any(|e| e.plus || e.minus_unhide || e.minus_neg) || !exp.hide.is_empty() {
+            let nontrivial = effs.iter().any(|e| e.plus || e.minus_unhide || e.minus_neg) || !exp.hide.is_empty();
+            if nontrivial {
                 l.nontrivial += 1;
             }
             l.hist(&format!(
@@ -900,7 +902,9 @@ fn check_list(rules: &[&Rule], effs_by_page: &[Vec<Eff>], pages: &[Page], ghs: &
                 got.blocks.len(),
                 got.generichide as u8
             ));
-            if sample == Some((gh, pi)) && l.samples.len() < 3 {
+            // one sample per selected list: its first non-trivial page on the selected network side
+            if sample == Some(gh) && nontrivial && !sampled && l.samples.len() < 3 {
+                sampled = true;
                 l.samples.push(json!({"case": case_json(rules, gh, p), "host_lookup": p.host_lookup, "entity_lookup": p.entity_lookup,
                     "observed": {"hide": got.hide, "procedural": got.procedural, "exceptions": got.exceptions, "script_blocks": got.blocks, "generichide": got.generichide}}));
             }
@@ -1064,7 +1068,7 @@ fn check(ctx: &Ctx) -> i32 {
         nth_arrangement(i, n, &mut idx);
         let rs: Vec<&Rule> = idx.iter().map(|&k| &rules[k]).collect();
         let effs = effs_of(&idx);
-        let sample = if (i + ctx.seed) % 7919 == 11 { Some(((i % 3) as usize, (i / 3) as usize % pages.len())) } else { None };
+        let sample = if (i + ctx.seed) % 7919 == 11 { Some((i % 3) as usize) } else { None };
         check_list(&rs, &effs, &pages, &ghs, &res, l, sample);
     });
 
